@@ -126,21 +126,21 @@ Definition tokens_of (s : string) : list token := lex (S (String.length s)) s.
      isect   := operand operand*         left associative (implicit '*')
      operand := lit | #n | #( union ) | ( union )
    written as a deterministic pushdown automaton that consumes one token per
-   step (so it is structurally recursive and total).  A frame is one open
-   parenthesis level: the union built so far, the intersection being built, and
-   whether the last token was ':'.  GeomSemantics is applied on the fly: '#('
-   frames are De-Morgan-inverted when they close (so AttributeError surfaces at
-   the closing parenthesis, as in the PEG's semantic action).
-   A complement directly after ':' is rejected: normalize() turns "1:#2" into
-   "1:*^(2)" (it re-inserts a blank before the complement after having removed
-   the blanks around ':'). *)
+   step (so it is structurally recursive and total).  GeomSemantics is applied
+   on the fly: '#(' frames are De-Morgan-inverted when they close (so
+   AttributeError surfaces at the closing parenthesis, as in the PEG's
+   semantic action).
+   A frame is one open parenthesis level: the union built so far and the
+   intersection being built.  (Since /repo d73f13e normalize() removes the
+   blanks around ':' AFTER giving the complement operators their leading
+   blank, so "1:#2" is "1:^(2)" and a complement may follow ':' directly.) *)
 Inductive fkind := KTop | KParen | KHash.
-Record frame := mkFrame { fk : fkind; fu : option ast; fi : option ast; fc : bool }.
+Record frame := mkFrame { fk : fkind; fu : option ast; fi : option ast }.
 
-Definition new_frame (k : fkind) : frame := mkFrame k None None false.
+Definition new_frame (k : fkind) : frame := mkFrame k None None.
 
 Definition push_operand (e : ast) (fr : frame) : frame :=
-  mkFrame (fk fr) (fu fr) (Some (match fi fr with None => e | Some a => AAnd a e end)) false.
+  mkFrame (fk fr) (fu fr) (Some (match fi fr with None => e | Some a => AAnd a e end)).
 
 Definition close_frame (fr : frame) : option ast :=
   match fi fr with
@@ -158,13 +158,13 @@ Fixpoint run (ts : list token) (cur : frame) (stk : list frame) : res ast :=
   | t :: r =>
       match t with
       | TLit z sub => run r (push_operand (ASurf z sub) cur) stk
-      | THashN n => if fc cur then Err EParse else run r (push_operand (ACompl n) cur) stk
-      | THashP => if fc cur then Err EParse else run r (new_frame KHash) (cur :: stk)
+      | THashN n => run r (push_operand (ACompl n) cur) stk
+      | THashP => run r (new_frame KHash) (cur :: stk)
       | TLP => run r (new_frame KParen) (cur :: stk)
       | TColon =>
           match close_frame cur with
           | None => Err EParse
-          | Some u => run r (mkFrame (fk cur) (Some u) None true) stk
+          | Some u => run r (mkFrame (fk cur) (Some u) None) stk
           end
       | TRP =>
           match fk cur, close_frame cur, stk with
